@@ -557,11 +557,19 @@ func exclusion(s *Sub, in info) (expand, fields string) {
 				// an empty field, Fields only "x"
 				quotedEmpty = "C25-quoted-empty-next-to-expansion"
 			}
-			if p.T == "lit" && i > 0 && strings.HasPrefix(p.S, "~") && strings.HasSuffix(text(w[i-1:i]), "=") {
-				tildeEq = "C25-tilde-after-equals"
-			}
-			if (p.T == "lit" || p.T == "raw") && strings.Contains(p.S, "=~") {
-				tildeEq = "C25-tilde-after-equals"
+			if p.T == "lit" || p.T == "raw" {
+				// a=~ and a=x:~ : bash expands a tilde after "=" and, in a
+				// word that looks like an assignment, after ":"
+				before := text(w[:i])
+				for k := 0; k < len(p.S); k++ {
+					if p.S[k] != '~' {
+						continue
+					}
+					pre := before + p.S[:k]
+					if strings.Contains(pre, "=") && (strings.HasSuffix(pre, "=") || strings.HasSuffix(pre, ":")) {
+						tildeEq = "C25-tilde-after-equals"
+					}
+				}
 			}
 			if p.T != "brace" {
 				continue
